@@ -119,7 +119,7 @@ CycleEnvT(cv, lo, lp, t, refused, tookBack) ==
             /\ fanMin' = IF raise /\ BugD1 /\ cfg.kind = "hwmon" THEN offset + 1 ELSE fanMin
             /\ avg'    = IF raise THEN Rat(1, 1) ELSE avg
             /\ last'   = req
-            /\ mode'   = IF tookBack THEN 0 ELSE IF cfg.hasMode THEN Manual ELSE mode
+            /\ mode'   = IF cfg.modeStuck THEN mode ELSE IF tookBack THEN 0 ELSE IF cfg.hasMode THEN Manual ELSE mode
             /\ pwm'    = IF skip \/ refused THEN pwm ELSE w
             /\ out'    = [ev |-> "Cycle", cv |-> cv, req |-> req, err |-> FALSE,
                           wrote |-> IF skip THEN Nil ELSE w, raised |-> raise, tp |-> tp]
